@@ -156,6 +156,8 @@ def run(ctx):
                                                              'block_height': 700000, 'fee': None, 'size': 0, 'value': 5000 + i, 'script': '',
                                                              'date': None}],
                      lambda r: (r[0]['value'] - 5000) if isinstance(r, list) and len(r) == 1 else 'fabricated:%r' % (r,)),
+        'gettransactions': (lambda s: s.gettransactions(addr), lambda i: [tx_from(i)],
+                            lambda r: (r[0].block_height - 700000) if isinstance(r, list) and len(r) == 1 and r[0].raw_hex() == rawhex else 'fabricated:%r' % (r,)),
         'gettransaction': (lambda s: s.gettransaction(t.txid), tx_from, lambda r: (r.block_height - 700000) if r and r.txid == t.txid and r.raw_hex() == rawhex else 'fabricated'),
         'mempool': (lambda s: s.mempool(t.txid), lambda i: [t.txid, 'p%d' % i], lambda r: int(r[1][1:]) if isinstance(r, list) and len(r) == 2 else 'fabricated:%r' % (r,)),
         'isspent': (lambda s: s.isspent(t.txid, 0), lambda i: True, lambda r: 'T' if r is True else 'fabricated:%r' % (r,)),
@@ -280,6 +282,39 @@ def run(ctx):
         if [canon(x) for x in real] != [canon(x) for x in model]:
             ctx.violation('a history of cached gettransaction queries disagrees with the cache + provider machine',
                           {'op': 'svc_hist', 'line': ';'.join(qlines), 'observed': real, 'model': model})
+    # ---- a failed query must not poison later ones: all providers down (error limit reached), then healthy again ---------------
+    for qname, (call, answer, who) in queries.items():
+        for maxe in (1, 2, 4):
+            srv = new_service(2)
+            srv.max_errors = maxe
+            for i in range(2):
+                script[i] = {'blockcount': ('ok', 800000), qname: ('raise',)}
+                srv.providers['fake%d' % i]['priority'] = 50 - i
+            ctx.evals += 1
+            ctx.count('failed-then-healthy:' + qname)
+            try:
+                r = call(srv)
+                first = 'false' if r is False else 'value %s' % who(r)
+            except ServiceError:
+                first = 'error'
+            except Exception as e:
+                first = 'raise:' + type(e).__name__
+            if first.startswith('value') and not (qname == 'getbalance' and f36_listed and first == 'value fabricated:0') \
+                    and not (qname == 'estimatefee' and first.startswith('value normalised')):
+                ctx.violation('a query answered although every provider failed', {'op': 'all-down %s' % qname, 'max_errors': maxe, 'observed': first})
+            for i in range(2):
+                script[i][qname] = ('ok', answer)
+            try:
+                r = call(srv)
+                second = 'false' if r is False else 'value %s' % who(r)
+            except ServiceError:
+                second = 'error'
+            except Exception as e:
+                second = 'raise:' + type(e).__name__
+            want = 'value T' if qname == 'isspent' else 'value 0'
+            if second != want and not (qname == 'estimatefee' and second.startswith('value')):
+                ctx.violation('after a failed query the next query (providers healthy again) does not return the provider\'s answer',
+                              {'op': 'down-then-up %s' % qname, 'max_errors': maxe, 'first': first, 'observed': second, 'expected': want})
     ctx.assumptions += ['providers are in-process fakes; real network behaviour (timeouts, partial HTTP answers) is represented by the outcome classes',
                         'estimatefee clamps to the network fee limits and substitutes the default for a falsy answer: a documented normalisation']
 
